@@ -1,9 +1,10 @@
 CONSTANTS
   MaxLen = 4
   MaxWidth = 6
-  Classes = {1, 2, 3, 4, 5, 6, 7, 8, 9}
+  Classes = {1, 2, 3, 4, 5, 6, 7, 8, 9, 10}
   Orig = FALSE
   RunCut = TRUE
+  OwnBreaks = TRUE
 SPECIFICATION Spec
 INVARIANT Holds
 CHECK_DEADLOCK FALSE
